@@ -29,6 +29,12 @@ def run(ck):
     if None in (rej, seq, apply_worker, wr):
         return
     r8_reject_removed_only_to_be_rewritten(ck, rej)
+    # a reject holds the failed hunk *exactly*: its header carries the hunk's own numbers (C12-R7: they survive write-then-parse)
+    from . import c12 as _c12
+    _hh = ck.anchor("UnifiedPatchHunkHeaderWriter>::write_header_to")
+    if _hh is not None:
+        from .c18 import ck_alias as _alias
+        _c12.r7(_alias(ck, "C13-R9"), _hh)
     # ---- R1 ------------------------------------------------------------------------------------------
     creates = [(bb, t) for bb, t, c in calls_named(rej, "std::fs::File::create", "std::fs::File::create_new", "std::fs::OpenOptions::open", "std::fs::write")]
     ck.floor("C13-R1", "reject file creation sites", len(creates), 1)
